@@ -203,7 +203,12 @@ def mon_C14(case, lines):
 
 
 def extension_matrix():
-    """every extension x provider kind x method: must return normally; no-op outside python"""
+    """every extension x provider kind x method: must return normally; no-op outside python.  Run twice, with one
+    protocol class used under every provider each time: interop first, and python first."""
+    return _extension_matrix(False) + [("rev:" + a, b, c, d) for a, b, c, d in _extension_matrix(True)]
+
+
+def _extension_matrix(python_first):
     import logging
     from gradysim.simulator.extension.camera import CameraHardware, CameraConfiguration
     from gradysim.simulator.extension.communication_controller import CommunicationController
@@ -257,7 +262,10 @@ def extension_matrix():
                 b.add_node(P, (1.0, 0.0, 0.0))
                 sim = b.build()
                 provs[name] = sim.get_node(0).protocol_encapsulator.protocol
-            for pname, proto in provs.items():
+            order = list(provs.items())
+            if python_first:
+                order = order[1:][::-1] + order[:1]
+            for pname, proto in order:
                 for ext, mk in calls.items():
                     for j, f in enumerate(mk(proto)):
                         try:
